@@ -52,10 +52,17 @@ TARGETS = [
     ("src_fn_Bound_exceeded_by", "src/raw/mod.rs", "Bound", "exceeded_by", ("fn",), None, False, None),
     ("src_fn_Bound_is_empty", "src/raw/mod.rs", "Bound", "is_empty", ("fn",), None, False, None),
     ("src_fn_Bound_is_inclusive", "src/raw/mod.rs", "Bound", "is_inclusive", ("fn",), None, False, None),
+] + [
+    ("src_fn_%s_%s" % (o, f), "src/raw/mod.rs", o, f, ("selfpair", ["min", "max"]), None, False, None)
+    for o in ("StreamBuilder", "StreamWithStateBuilder") for f in ("ge", "gt", "le", "lt")
+] + [
     ("src_fn_Output_prefix", "src/raw/mod.rs", "Output", "prefix", ("fn",), None, False, None),
     ("src_fn_Output_cat", "src/raw/mod.rs", "Output", "cat", ("fn",), None, False, None),
     ("src_fn_Output_sub", "src/raw/mod.rs", "Output", "sub", ("fn",), None, False, None),
     ("src_fn_CheckSummer_masked", "src/raw/crc32.rs", "CheckSummer", "masked", ("fn",), None, False, None),
+    ("src_fn_crc32c_slice16", "src/raw/crc32.rs", None, "crc32c_slice16", ("fn",), None, False, None),
+    ("src_fn_CheckSummer_new", "src/raw/crc32.rs", "CheckSummer", "new", ("fn",), None, False, None),
+    ("src_fn_CheckSummer_update", "src/raw/crc32.rs", "CheckSummer", "update", ("fn",), None, False, None),
     ("src_fn_common_idx", "src/raw/node.rs", None, "common_idx", ("fn",), None, False, None),
     ("src_fn_common_input", "src/raw/node.rs", None, "common_input", ("fn",), None, False, None),
     ("src_fn_PackSizes_new", "src/raw/node.rs", "PackSizes", "new", ("fn",), None, False, None),
@@ -116,6 +123,8 @@ TARGETS = [
                   ("Ref", "start is_match can_match will_always_match accept"))
     for f in fs.split()
 ] + [
+    ("src_fn_Slot_partial_cmp", "src/raw/ops.rs", "Slot", "partial_cmp", ("fn",), None, False, None),
+    ("src_fn_Slot_cmp", "src/raw/ops.rs", "Slot", "cmp", ("fn",), None, False, None),
     # Fst::new: the conditions of its four rejecting `if`s
     ("src_fn_Fst_new_too_short", "src/raw/mod.rs", "Fst", "new", ("cond", 1), FST_NEW, False, "bool"),
     ("src_fn_Fst_new_bad_version", "src/raw/mod.rs", "Fst", "new", ("cond", 2), FST_NEW, False, "bool"),
@@ -172,6 +181,8 @@ def generate(repo, root, use_pinned_for=(), pin=False):
     forced = {n: True for n, (ty, _) in pinned.items() if ty.startswith("res ")}
     tr = Translator(files, ovf=ovf, dbg=dbg, forced_res=forced,
                     tables={"COMMON_INPUTS": ("src_COMMON_INPUTS", 256), "COMMON_INPUTS_INV": ("src_COMMON_INPUTS_INV", 256)})
+    for coqname, f, owner, fn, mode, pdecl, opt, rdecl in TARGETS:
+        tr.reserved[coqname] = (owner, fn) if (mode == ("fn",) and pdecl is None) else ("%derived", coqname)
     texts, types, status = {}, {}, {}
     for coqname, f, owner, fn, mode, pdecl, opt, rdecl in TARGETS:
         if coqname in use_pinned_for:
